@@ -458,9 +458,12 @@ def r_feeder_hook(e, R):
         R.check(not effect_nodes(e, f, broken) and not effect_nodes(e, f, kill), "R-FEEDER-HOOK", f"{f.short}: no broken-flag / kill effect",
                 f.short, "no FLAG(broken)/KILL", "a task that cannot be pickled flags the whole pool broken or kills workers", e.loc(f, f.node))
         objp = f.params[2] if len(f.params) > 2 else None
-        pops = [n for n in g.nodes for c in calls_in(n) if e.receiver_objs(f, c, ("pop",)) & a.pending and c.args and
-                isinstance(c.args[0], ast.Attribute) and c.args[0].attr == "work_id" and isinstance(c.args[0].value, ast.Name)
-                and c.args[0].value.id == objp]
+        def own_id(x):
+            # `obj.work_id`, directly or read once into a local
+            if isinstance(x, ast.Name) and len(e.local_defs(f, x.id)) == 1:
+                x = e.local_defs(f, x.id)[0]
+            return isinstance(x, ast.Attribute) and x.attr == "work_id" and isinstance(x.value, ast.Name) and x.value.id == objp
+        pops = [n for n in g.nodes for c in calls_in(n) if e.receiver_objs(f, c, ("pop",)) & a.pending and c.args and own_id(c.args[0])]
         R.check(bool(pops), "R-FEEDER-HOOK", f"{f.short}: removes the failed task's own entry (keyed by its work id)", f.short,
                 "pending.pop(obj.work_id, None)", "the hook does not remove the pending entry of the task that failed", e.loc(f, f.node))
         for n in pops:
